@@ -248,13 +248,22 @@ def gen_font(r, npasses=None, dirn=None, maxloop=None, posallow=None, allow=None
         trans, nst, ntr, nsu, rm = trie_fsm([ru[4] for ru in rules], ncols)
         # `rtl`: some passes run against the font's direction (bit 5 of the pass flags)
         specs.append(dict(pre=pre, rules=rules, ml=maxloop or r.choice([1, 2, 5, 5, 20]), trans=trans, nst=nst, ntr=ntr, nsu=nsu, rm=rm,
-                          flags=(32 if rtl and r.random() < 0.3 else 0)))
+                          flags=(32 if rtl and r.random() < 0.3 else 0), pcon=b''))
 
     def passes_fn(i, base):
         sp = specs[i]
-        return mk_pass([ru[:4] for ru in sp["rules"]], ncols, cols, sp["trans"], sp["nst"], sp["ntr"], sp["nsu"], sp["rm"], [0], sp["pre"], sp["pre"], base, maxloop=sp["ml"], flags=sp["flags"])
+        return mk_pass([ru[:4] for ru in sp["rules"]], ncols, cols, sp["trans"], sp["nst"], sp["ntr"], sp["nsu"], sp["rm"], [0], sp["pre"], sp["pre"], base, maxloop=sp["ml"], flags=sp["flags"],
+                       passcon=sp["pcon"])
     d = r.choice([0, 0, 1]) if dirn is None else dirn
     gl = r.__class__(r.random())          # glyph attributes come from their own stream so that the model line can repeat them
+    if constraints:
+        # pass constraints (Pass::testPassConstraint: run once on the first slot of the stream, before the reversal; false = the pass is
+        # skipped): a constant, a comparison, a test of the first glyph's break-weight attribute - drawn from a stream of their own so
+        # that fonts generated before this feature keep their rules
+        pr = r.__class__(r.random())
+        for sp in specs:
+            if pr.random() < 0.3:
+                sp["pcon"] = gen_constraint(pr, sp["rules"][0][1], sp["rules"][0][0] - sp["rules"][0][1])
     gattr = [[0, 0, gl.choice([0, 0, 10, 20, -10, 30]), 0] for _ in range(NG)]
     if rtl:
         # bidi class 16 (non-spacing mark) for some glyphs: `reverseSlots` keeps them behind their base
@@ -271,7 +280,8 @@ def gen_font(r, npasses=None, dirn=None, maxloop=None, posallow=None, allow=None
             ";".join(",".join(map(str, row)) for row in sp["trans"]) or "-",
             ";".join((",".join(map(str, l)) or "-") for l in sp["rm"]) or "-",
             ";".join("%d,%d,%s,%s" % (ru[0], ru[1], ru[2].hex() or "-", ru[3].hex() or "-") for ru in sp["rules"]),
-            ";".join(".".join(map(str, ru[4])) for ru in sp["rules"])]))
+            ";".join(".".join(map(str, ru[4])) for ru in sp["rules"]),
+            sp["pcon"].hex() or "-"]))
     model = "ipos=%d sdir=%d classes=%s gattr=%s gadv=%s passes=%s" % (ipos, d, ";".join(".".join(map(str, c)) for c in CLASSES),
                                                                       ";".join(".".join(map(str, g)) for g in gattr), ".".join(str(500 + 10 * g) for g in range(NG)), "|".join(pm))
     desc = {"passes": np_, "ipos": ipos, "ncols": ncols, "dir": d, "model": model,
